@@ -11,6 +11,7 @@ import glob
 import hashlib
 import json
 import os
+import shutil
 from concurrent.futures import ThreadPoolExecutor
 
 import vf
@@ -35,6 +36,7 @@ QUICK_MODELS = [
 THOROUGH_MODELS = [m for m in QUICK_MODELS if m[0] not in ("faces_d4", "loc_d4_quarter")] + [
     ("faces_d4_wide", "MC_Permutahedral_faces_d4w.cfg"),
     ("loc_d4", "MC_Permutahedral_loc_d4.cfg"),
+    ("loc_d5_quarter", "MC_Permutahedral_loc_d5q.cfg"),
 ]
 
 
@@ -50,7 +52,7 @@ def run_models(models, timeout):
         part, cfg = m
         return part, vf.tlc(MODULE, cfg, workers=1, timeout=timeout, heap="3g", tag="perm-%s-%d" % (part, os.getpid()))
     # longest first so that the pool is used well
-    order = sorted(models, key=lambda m: 0 if ("d4" in m[0]) else 1)
+    order = sorted(models, key=lambda m: 0 if ("d4" in m[0] or "d5" in m[0]) else 1)
     with ThreadPoolExecutor(PAR) as ex:
         return dict(ex.map(one, order))
 
@@ -194,6 +196,12 @@ def main(tier):
         vf.violation(PROP, p)
         return 1
     ev.write()
+    # nothing to replay: drop the case file, the traces and the TLC outputs of this run
+    shutil.rmtree(work, ignore_errors=True)
+    for part, cfg in models:
+        shutil.rmtree(os.path.join(vf.BUILD, "tlc", "perm-%s-%d" % (part, os.getpid())), ignore_errors=True)
+    for i in range(nfiles):
+        shutil.rmtree(os.path.join(vf.BUILD, "tlc", "Trace_Permutahedral-%d-%d" % (os.getpid(), i)), ignore_errors=True)
     return 0
 
 
